@@ -125,6 +125,12 @@ func (fe *FE) runDeferred(st *State, d deferred, site string, panicking bool) bo
 	if d.native == "unlock" {
 		held := sel(fe.heapTerm(st, "G_held", arraySort([]string{SInt}, SBool)), d.ref)
 		fe.addOb(st, "lock", "held-at-unlock@defer."+site, nil, held, "deferred Unlock of a mutex that is not held is a fatal error")
+		{
+			dci := &callInfo{display: []string{"(*sync.Mutex).Unlock", "(*sync.RWMutex).Unlock"}}
+			rv := scalar(d.ref, SInt, nil)
+			dci.recv = &rv
+			fe.runHooks(st, fe.matchHooks(dci, "call"), dci, "before", nil, nil, "defer."+site)
+		}
 		fe.onRelease(st, d.ref, "defer."+site)
 		fe.ghostArrSet(st, "G_held", d.ref, "false", SBool)
 		return true
